@@ -17,8 +17,14 @@ package logqlpattern
 //@   loop 0 modifies nothing
 //@   loop 0 invariant rangeindex+1 <= len(parts) && len(parts) == len(p.Parts)
 //@   loop 0 body_ensures[literal-must-be-a-prefix] parts[rangeindex].Type == Literal ==> cp_called && cp_a0 == head(input) && cp_a1 == parts[rangeindex].Value && cp_r1 && input == cp_r0 && !m_called
-//@   loop 0 body_ensures[capture-up-to-next-literal] parts[rangeindex].Type == Capture && rangeindex+1 < len(parts) ==> ct_called && ct_a0 == head(input) && ct_a1 == parts[rangeindex+1].Value && ct_r2
+//@   loop 0 body_ensures[capture-up-to-next-capture] parts[rangeindex].Type == Capture && rangeindex+1 < len(parts) ==> ct_called && ct_a0 == head(input) && ct_r2
 //@   loop 0 body_ensures[delimiter-is-the-whole-literal-run] parts[rangeindex].Type == Capture && rangeindex+2 < len(parts) && parts[rangeindex+1].Type == Literal && parts[rangeindex+2].Type == Literal && (rangeindex+3 >= len(parts) || parts[rangeindex+3].Type != Literal) ==> ct_called && ct_a1 == parts[rangeindex+1].Value + parts[rangeindex+2].Value
+//@   loop 0 body_ensures[single-literal-delimiter] parts[rangeindex].Type == Capture && rangeindex+1 < len(parts) && (rangeindex+2 >= len(parts) || parts[rangeindex+2].Type != Literal) ==> ct_called && ct_a1 == parts[rangeindex+1].Value
+//@   loop 1 modifies nothing
+//@   loop 1 invariant i+3+rangeindex <= len(parts) && i >= 0 && len(parts) == len(p.Parts)
+//@   loop 1 invariant[run-so-far-is-literal] forall(i+2, i+3+rangeindex, func(j int) bool { return parts[j].Type == Literal })
+//@   loop 1 invariant[delimiter-starts-with-the-next-part] (rangeindex == -1 ==> delim == parts[i+1].Value) && (rangeindex == 0 ==> delim == parts[i+1].Value + parts[i+2].Value)
+//@   loop 1 body_ensures[run-extends-by-this-literal] parts[i+2+rangeindex].Type == Literal && delim == head(delim) + parts[i+2+rangeindex].Value
 //@   loop 0 body_ensures[capture-reported-with-its-label] parts[rangeindex].Type == Capture && parts[rangeindex].Value != "_" ==> m_called && m_a0 == logql.Label(parts[rangeindex].Value) && m_a1 == ite(rangeindex+1 < len(parts), ct_r0, head(input))
 //@   loop 0 body_ensures[underscore-not-reported] parts[rangeindex].Type == Capture && parts[rangeindex].Value == "_" ==> !m_called
 
